@@ -12,10 +12,25 @@ from ..e3_values import *  # noqa
 FIELDS = ("year", "month", "day", "hour", "minute", "DOW", "POD")
 
 
+STR_OPS = ("lower", "upper", "strip", "lstrip", "rstrip", "casefold", "title", "slice")
+
+
+def str_chain(sym):
+    """a chain of string methods / constant slices applied to the text of a regex group"""
+    while isinstance(sym, tuple) and sym and sym[0] in STR_OPS:
+        if sym[0] == "slice" and (len(sym) != 4 or sym[2] == "?"):
+            return False
+        sym = sym[1]
+    return isinstance(sym, tuple) and bool(sym) and sym[0] == "group"
+
+
 def extra_leaf(sym):
-    """('int', ('group', ...)) terms (numbers read from the text) are leaves too."""
-    return isinstance(sym, tuple) and len(sym) == 2 and sym[0] == "int" and \
-        isinstance(sym[1], tuple) and sym[1] and sym[1][0] == "group"
+    """('int', ('group', ...)) terms (numbers read from the text) are leaves too, and so are the
+    texts of groups after string methods (compared with constants by the code)."""
+    if isinstance(sym, tuple) and len(sym) == 2 and sym[0] == "int" and \
+            isinstance(sym[1], tuple) and sym[1] and sym[1][0] == "group":
+        return True
+    return isinstance(sym, tuple) and bool(sym) and sym[0] in STR_OPS and str_chain(sym)
 
 
 def leaves_of(sym, out):
@@ -53,7 +68,9 @@ def bool_leaves(conds, out):
 class Summary:
     """All returning paths of one rule run, compiled over a common leaf order."""
 
-    def __init__(self, paths, want_fields=FIELDS):
+    def __init__(self, paths, want_fields=FIELDS, strict=True):
+        """strict: a path condition outside the evaluable fragment makes the summary undecided (it
+        would otherwise be treated as free, and paths that exclude each other would both apply)"""
         self.paths = paths
         self.leaves = set()
         self.fields = want_fields
@@ -98,6 +115,17 @@ class Summary:
                         tt.append(t)
                     except Undecided:
                         tt.append(("const", "<opaque>"))
+            if strict:
+                e4.STRICT[0] = True
+                try:
+                    for c_, _t in p.conds:
+                        try:
+                            _code_with_leaves(c_, index)
+                        except Undecided as e_:
+                            raise Undecided("path condition outside the evaluable fragment: {} ({})".format(
+                                str(c_)[:100], e_))
+                finally:
+                    e4.STRICT[0] = False
             f = compile_path(p.conds, tt, self.order)
             self.compiled.append((p, kind, f))
 
@@ -134,6 +162,18 @@ def stride(n, target):
     while step > 1 and step % 3 == 0:
         step += 1
     return step
+
+
+def sample(sweep, target):
+    """about *target* strided entries of the sweep plus every entry at a calendar boundary (first and
+    last day of a month, 28/29 February): the places where a day, month or year roll-over shows"""
+    step = stride(len(sweep), target)
+    picked = set(sweep[::step])
+    one = _dt.timedelta(days=1)
+    for t in sweep:
+        if t.day == 1 or (t + one).day == 1 or (t.month == 2 and t.day >= 28):
+            picked.add(t)
+    return sorted(picked)
 
 
 def ts_sweep(tier):
